@@ -89,6 +89,20 @@ CHECKS.update({
     ),
 })
 
+CHECKS.update({
+    "C09": (
+        "fault_enumeration",
+        "vloop-explorer",
+        "fault enumeration on the real code under a virtual clock: bounded exploration of fault/schedule sequences (resolver, multi-address "
+        "TCP, silence, garbage, resets, write failures, cancellations) with a hang/late/unclassified auditor, plus a first-cause sweep "
+        "(state x fatal cause x follow-up event x same-turn/next-turn) compared differentially and against the error classes the properties name",
+        "Every execution is run to a virtual-time horizon, so 'never hangs' and 'within its bound' are decided, not sampled; the "
+        "first-cause clause is checked for every (seed state, F1, F2, ordering) combination of the stated alphabets.",
+        BASE,
+        "DESIGN.md §3 C09",
+    ),
+})
+
 NOT_APPLICABLE: dict[str, str] = {}
 
 
